@@ -235,6 +235,7 @@ type File struct {
 	OnlyCalledFrom [][2]string // (callee name, caller): mechanical call-site scan
 	ConstTables []string // globals whose composite-literal initialiser is read from the source
 	GlobalInvs []*GlobalInv
+	FieldIs [][2]string // (Type.field, function): the function-valued field only ever holds this function (scan)
 }
 
 func (f *File) Merge(g *File) {
@@ -251,4 +252,5 @@ func (f *File) Merge(g *File) {
 	f.TypeInvs = append(f.TypeInvs, g.TypeInvs...)
 	f.StoredOnlyIn = append(f.StoredOnlyIn, g.StoredOnlyIn...)
 	f.GlobalInvs = append(f.GlobalInvs, g.GlobalInvs...)
+	f.FieldIs = append(f.FieldIs, g.FieldIs...)
 }
